@@ -21,11 +21,13 @@ ASSUMPTIONS = ['numpy is the reference semantics of each constructor (vmc.terms.
                'termination: a run that exceeds 20000 rewrite steps is reported as divergence (largest terminating run is in the evidence)']
 BUDGET_S = {'quick': 420, 'thorough': 5400}
 STEP_BUDGET = 20000
+HANG_S = 20   # backstop for non-termination inside one rewrite rule (between two counted steps)
 
 PROFILES = {
     'quick': [
         {'name': 'd2-all', 'leaves': 'f5', 'consts': False, 'ops': 'all', 'depth': 2},
         {'name': 'd2-mixed', 'leaves': 'mixed', 'consts': True, 'ops': 'all', 'depth': 1},
+        {'name': 'd1-int', 'leaves': 'int', 'consts': False, 'ops': 'all', 'depth': 1},
         {'name': 'd3-core', 'leaves': 'aA', 'consts': False, 'ops': 'core', 'depth': 3, 'binary': True},
     ],
     'thorough': [
@@ -66,7 +68,7 @@ def check_term(term, nsets=3, res=None):
         return ('build', 'constructor raised {!r}'.format(e))
     shape, kind = T.typeof(term)
     old = signal.signal(signal.SIGALRM, _on_alarm)
-    signal.alarm(60)
+    signal.alarm(HANG_S)
     try:
         with irtools.rewrite_budget(STEP_BUDGET, trace=True) as c:
             try:
@@ -74,7 +76,7 @@ def check_term(term, nsets=3, res=None):
             except irtools.Diverged as e:
                 return ('diverged', 'simplification exceeded {} rewrite steps; last rewrites {}'.format(STEP_BUDGET, _cycle(c['trace'])))
             except _Alarm:
-                return ('hang', 'simplification did not return within 60 s after {} rewrite steps'.format(c['n']))
+                return ('hang', 'simplification did not return within the backstop time (more than 1000 rewrite steps: {})'.format(c['n'] > 1000))
             except AssertionError as e:
                 return ('simplify-assert', 'assertion in simplifier: {}'.format(str(e)[:300]))
             except RecursionError as e:
